@@ -5,6 +5,7 @@ import I2N.Lemmas.TravGlobal
 import I2N.Lemmas.TravGlobalN
 import I2N.Lemmas.TravGlobalR
 import I2N.Lemmas.TravFair
+import I2N.Lemmas.TravFair2
 import I2N.Model.TravMon
 import I2N.Lemmas.GenReady
 /-!
@@ -1318,6 +1319,215 @@ example := backoff_sleeps_a_tenth gDuo (edgeSymB_sound (by decide)) 2 []
         ⟨none, 0⟩ 82).1.wd 1).pc <;> rw [hpc] at h <;> first | rfl | cases h)
 example : (resume gDuo (I2N.Trav.GlobalN.runStepsN gDuo (initState gDuo 2 []) (runOfGDuo.take 1)) 1
     ⟨none, 0⟩ 82).2.getLast? = some (Event.sleep "net2" 10) := by decide +kernel
+
+-- ==== pxterm2 ====
+/-! ## Several workers: object roots, bumps of `max_concurrent_tries`, the sleeps of the result wait (`Lemmas/TravFair2.lean`)
+
+Scheduler view and notions of fairness as in the previous section (`Fair.FairW`, `Fair.Timed`, `Fair.Alive`).  The
+development of `TravFair2` does not use `NoBump`: a bound on the number of results is needed at the END of the run only. -/
+
+open I2N.Trav.Term I2N.Trav.Global I2N.Trav.GlobalN I2N.Trav.GlobalR I2N.Trav.Fair I2N.Trav.Fair2 in
+/-- **multi_worker_terminates_fair_roots** (`_partial`: class hypotheses, no bump).  `multi_worker_terminates_fair_partial`
+WITHOUT `noRootsB`: pre-parsed acyclic graph, ANY number of workers, any outcomes; the class hypothesis is `classesOKRB g` of
+`single_worker_terminates_roots_partial` (setup classes may contain OBJECT ROOTS with `max_tries ≤ 1`, the hypothesis of
+C03's `budget_stateful_roots`); no step raises a `max_concurrent_tries`; the run is fair with window `K ≥ 1`.  Then after
+ANY such run of at least `(24·Σ_n max(max_tries n, 1) + 12·|workers| + 1)·K` resumes every worker is `done`, or some worker is
+`failed`.
+
+Why: `Fair2.RInvN` — `RInv` of the one-worker theorem for EVERY worker: while `w` is inside the creation pre-step of root
+`n` its copy is `results n ++ [placeholder]`.  A step of `v` changes the results of an object root only from inside a test
+of that root (`Fair2.resume_root_results`), a worker inside a test of `n` cares for `n` (`PInv.testOwn`), and under
+`classesOKRB` an object root is cared for by one worker (`Fair2.rootsOwned_of_classesOKRB`: `BClass.uniq`; stateless classes
+have no roots) — so the steps of the others leave `w`'s copy consistent.  Hence every step has the shape `GlobalR.ShapeR`,
+the counter `24·#results + Σ_v qR(pc v)` never falls and grows with every productive step (`Fair2.step_cntRN`),
+`#results ≤ Σ_n max(max_tries n, 1)` (`GlobalR.total_le_resultBoundR`, stated for any number of workers), and the
+composition with fairness is that of `Lemmas/TravFair.lean`, re-proved without `NoBump` (`Fair2.fair_lively2`).
+MISSING for the full statement: object roots with `max_tries ≥ 2` or in stateless classes, the other class hypotheses,
+lazily expanded graphs; for runs WITH bumps see `multi_worker_terminates_fair_bumps_partial`. -/
+theorem multi_worker_terminates_fair_roots_partial (g : Graph) (hr : rankedB g = true) (hsym : edgeSymB g = true)
+    (hflat : noFlatB g = true) (hwf : graphWF g = true) (ncls : Nat)
+    (hcls : ∀ n, n < g.nodes.length → (g.node n).cls < ncls) (hcl : classesOKRB g = true)
+    (store : List (String × List (String × String))) (K : Nat) (hK : 0 < K) (steps : List StepN)
+    (hreal : ∀ x ∈ steps, x.1 < g.workers.length) (hfuel : ∀ x ∈ steps, bound g ≤ x.2.2)
+    (hcalm : BumpFree g (initState g ncls store) steps) (hfair : FairW g K (initState g ncls store) steps)
+    (hlen : (24 * resultBound g + 12 * g.workers.length + 1) * K ≤ steps.length) :
+    (∀ v, v < g.workers.length → ((runStepsN g (initState g ncls store) steps).wd v).pc = .done) ∨
+    (∃ v, v < g.workers.length ∧ ((runStepsN g (initState g ncls store) steps).wd v).pc = .failed) :=
+  not_alive (fair_run_over_roots ⟨hr, hsym, hflat, hwf, hcls⟩ hcl store K hK steps
+    (runOK2_of g _ hreal hfuel) hcalm hfair hlen)
+
+open I2N.Trav.Term I2N.Trav.Global I2N.Trav.GlobalN I2N.Trav.GlobalR I2N.Trav.Fair I2N.Trav.Fair2 in
+/-- **multi_worker_terminates_timed_roots** (`_partial`): the same with the virtual clock — a timed run (`Timed`, `0 < q`)
+without bumps, object roots allowed (`classesOKRB`), after which somebody is not over and nobody is dead has FEWER than
+`(24·Σ_n max(max_tries n, 1) + 12·|workers| + 1)·(|workers|·(T/q + 1) + 1)` resumes. -/
+theorem multi_worker_terminates_timed_roots_partial (g : Graph) (hr : rankedB g = true) (hsym : edgeSymB g = true)
+    (hflat : noFlatB g = true) (hwf : graphWF g = true) (ncls : Nat)
+    (hcls : ∀ n, n < g.nodes.length → (g.node n).cls < ncls) (hcl : classesOKRB g = true)
+    (store : List (String × List (String × String))) (q T : Nat) (hq : 0 < q) (wake : Nat → Nat) (steps : List TStepN)
+    (hreal : ∀ x ∈ steps.map (·.1), x.1 < g.workers.length) (hfuel : ∀ x ∈ steps.map (·.1), bound g ≤ x.2.2)
+    (hcalm : BumpFree g (initState g ncls store) (steps.map (·.1)))
+    (ht : Timed g q T wake (initState g ncls store) steps)
+    (halive : Alive g (runStepsN g (initState g ncls store) (steps.map (·.1)))) :
+    steps.length < (24 * resultBound g + 12 * g.workers.length + 1) * (g.workers.length * (T / q + 1) + 1) := by
+  apply Nat.lt_of_not_le
+  intro hlen
+  exact timed_run_over_roots ⟨hr, hsym, hflat, hwf, hcls⟩ hcl store q T hq wake steps
+    (runOK2_of g _ hreal hfuel) hcalm ht hlen halive
+
+open I2N.Trav.Fair2 in
+/-- **bumps_bounded**: the total number of bumps of a run is bounded by the static graph.  Any graph with edges recorded at
+both ends (lazily expanded ones included), any reachable state (any interleaving of steps of real workers with positive
+fuel, any outcomes, no patience assumed): the bump counter of copy `i` — how often `max_concurrent_tries` was incremented on
+it — is at most `max(1, |workers| + 1 - max_concurrent_tries₀ i)`, `max_concurrent_tries₀` = the configured value or 0.
+Why: a bump happens in the back-off branch only, i.e. at an occupied copy: at least `max(mctOf i, 1)` DIFFERENT workers
+of the scope hold a `started` mark of the class (`is_started` with a threshold), all of them real workers other than the
+bouncing one (`PInvO.markPc`; for the scope shape `own` the copy would have to be marked by the bouncing worker itself:
+impossible); after the first bump `mctOf i = max_concurrent_tries₀ + bump`, so a further bump needs
+`max_concurrent_tries₀ + bump ≤ |workers|`.  (The first bump may LOWER the threshold — `max_concurrent_tries` unset and
+`max_tries > 1`: `get_numeric("max_concurrent_tries", 0) + 1` — which is why the count starts at 1.)
+Note on the code (`cartgraph/graph.py`, back-off branch of `traverse_object_trees`): `occupied_wait` is reset only when the
+worker bounces at a node it has not bounced at before and `occupied_at` is never cleared, so once a worker has over-waited,
+EVERY later bounce at a known node bumps that node — the bound above is what stops this, not the waiting time. -/
+theorem bumps_bounded (g : Graph) (hsym : EdgeSym g) (ncls : Nat) (store : List (String × List (String × String)))
+    (s : State) (h : ReachableF g ncls store s) (i : Nat) :
+    (s.nd i).bump ≤ max 1 ((g.workers.length : Int) + 1 - (g.node i).mct.getD 0).toNat :=
+  reachable_bcap hsym h i
+
+open I2N.Trav.Term I2N.Trav.Global I2N.Trav.GlobalN I2N.Trav.GlobalR I2N.Trav.Fair I2N.Trav.Fair2 in
+/-- **multi_worker_terminates_fair_bumps** (`_partial`: class hypotheses only — `BumpFree` is DROPPED).  Hypotheses of
+`multi_worker_terminates_fair_roots_partial` without `BumpFree`: workers may over-wait and raise `max_concurrent_tries` as
+the code does.  After ANY fair run of at least `(24·B + 12·|workers| + 1)·K` resumes, where
+`B = Σ_n max(max(max_tries n, 1) + 1, |workers| + 1)` (`Fair2.resultBoundB`), every worker is `done`, or some worker is
+`failed`.  In particular a run with an overrunning test (a test that takes longer than `timeout·max_tries`, the case the
+bump is made for) terminates in the model.
+Why: the C03 budget of a setup class is `max(max(max_tries, 1), classLimit)`, `classLimit` = the largest threshold that has
+been in force on a copy of the class; by `bumps_bounded` and `mctWithin` (`max_concurrent_tries₀ ≤ max(max_tries, 1)`) it is at
+most `max(max(max_tries, 1) + 1, |workers| + 1)` (`Fair2.classLimit_le_of_bcap`); stateless classes keep their budget
+`max(max_tries, 1)` whatever is bumped.  Everything else as in `multi_worker_terminates_fair_roots_partial`.
+MISSING: as there (class hypotheses; object roots with `max_tries ≥ 2`; lazily expanded graphs). -/
+theorem multi_worker_terminates_fair_bumps_partial (g : Graph) (hr : rankedB g = true) (hsym : edgeSymB g = true)
+    (hflat : noFlatB g = true) (hwf : graphWF g = true) (ncls : Nat)
+    (hcls : ∀ n, n < g.nodes.length → (g.node n).cls < ncls) (hcl : classesOKRB g = true)
+    (store : List (String × List (String × String))) (K : Nat) (hK : 0 < K) (steps : List StepN)
+    (hreal : ∀ x ∈ steps, x.1 < g.workers.length) (hfuel : ∀ x ∈ steps, bound g ≤ x.2.2)
+    (hfair : FairW g K (initState g ncls store) steps)
+    (hlen : (24 * resultBoundB g + 12 * g.workers.length + 1) * K ≤ steps.length) :
+    (∀ v, v < g.workers.length → ((runStepsN g (initState g ncls store) steps).wd v).pc = .done) ∨
+    (∃ v, v < g.workers.length ∧ ((runStepsN g (initState g ncls store) steps).wd v).pc = .failed) :=
+  not_alive (fair_run_over_bumps ⟨hr, hsym, hflat, hwf, hcls⟩ hcl store K hK steps
+    (runOK2_of g _ hreal hfuel) hfair hlen)
+
+open I2N.Trav.Term I2N.Trav.Global I2N.Trav.GlobalN I2N.Trav.GlobalR I2N.Trav.Fair I2N.Trav.Fair2 in
+/-- **multi_worker_terminates_timed_bumps** (`_partial`: class hypotheses only): the clock version without `BumpFree` — a
+timed run after which somebody is not over and nobody is dead has FEWER than
+`(24·B + 12·|workers| + 1)·(|workers|·(T/q + 1) + 1)` resumes, `B = Fair2.resultBoundB g`.  This is the statement that covers
+the runs in which bumps really happen: under the clock a worker over-waits after about a thousand sleeps at one node. -/
+theorem multi_worker_terminates_timed_bumps_partial (g : Graph) (hr : rankedB g = true) (hsym : edgeSymB g = true)
+    (hflat : noFlatB g = true) (hwf : graphWF g = true) (ncls : Nat)
+    (hcls : ∀ n, n < g.nodes.length → (g.node n).cls < ncls) (hcl : classesOKRB g = true)
+    (store : List (String × List (String × String))) (q T : Nat) (hq : 0 < q) (wake : Nat → Nat) (steps : List TStepN)
+    (hreal : ∀ x ∈ steps.map (·.1), x.1 < g.workers.length) (hfuel : ∀ x ∈ steps.map (·.1), bound g ≤ x.2.2)
+    (ht : Timed g q T wake (initState g ncls store) steps)
+    (halive : Alive g (runStepsN g (initState g ncls store) (steps.map (·.1)))) :
+    steps.length < (24 * resultBoundB g + 12 * g.workers.length + 1) * (g.workers.length * (T / q + 1) + 1) := by
+  apply Nat.lt_of_not_le
+  intro hlen
+  exact timed_run_over_bumps ⟨hr, hsym, hflat, hwf, hcls⟩ hcl store q T hq wake steps
+    (runOK2_of g _ hreal hfuel) ht hlen halive
+
+open I2N.Trav.Fair2 in
+/-- **result_wait_sleeps_thirty_seconds**: the part of `T` (the bound of `Timed` on a suspension inside a test) that is the
+model's own.  Any graph (`graphWF`), any reachable state, real worker, positive fuel: if the step ENDS inside a test with
+wait counter `wait' ≠ 0`, then it was a tick of the result wait of the SAME test (same node, same placeholder tag; the
+counter was `wait' - 1` before), `wait' ≤ 10`, and the LAST event of the step is `Event.sleep <worker id> 3000`
+(`asyncio.sleep(30)`, hundredths of a second).  Every other step that ends inside a test has just started it (counter 0:
+`Global.startFrom_pc`).  So a test is suspended once for its own duration — the only assumption left in `T` — and then at
+most ten times for exactly the 30 s the model announces: `T = max(duration of a test, 3000)`. -/
+theorem result_wait_sleeps_thirty_seconds (g : Graph) (hwf : graphWF g = true) (ncls : Nat)
+    (store : List (String × List (String × String))) (s : State) (h : ReachableR g ncls store s) (w : Nat)
+    (hw : w < g.workers.length) (out : Outcome) (fuel : Nat) (hf : 0 < fuel)
+    (n' : Nat) (ph' : Phase) (dir' : Dir) (uid' : String) (tag' wait' : Nat)
+    (hpc : ((resume g s w out fuel).1.wd w).pc = .test n' ph' dir' uid' tag' wait') (hne : wait' ≠ 0) :
+    (resume g s w out fuel).2.getLast? = some (Event.sleep (g.worker w).id 3000) ∧ wait' ≤ 10 ∧
+      ∃ ph dir uid wait, (s.wd w).pc = .test n' ph dir uid tag' wait ∧ wait' = wait + 1 :=
+  have b := h.basic hwf
+  resume_tick_sleep g (GraphWF.of_bool hwf) s w out fuel hf (by rw [b.workersLen]; exact hw) (b.paths w) hpc hne
+
+/-- two workers of one swarm; the shared root, an object root (vm creation) per worker — one class, scope shape global — and
+a leaf per worker below its root -/
+def gRoot2 : Graph :=
+  { workers := [{ id := "net1", swarm := "localhost" }, { id := "net2", swarm := "localhost" }],
+    nodes := [{ cls := 0, owner := none, name := "all.internal.stateless.noop", pfx := "0", flat := true, sharedRoot := true,
+                cleanup := [(1, ["vm1"]), (2, ["vm1"])] },
+              { cls := 1, owner := some 0, name := "all.root.vms.vm1.nets.localhost.net1", pfx := "1a1", objectRoot := true,
+                sets := [("vm1", "root")], objs := ["vm1"], setup := [(0, ["vm1"])], cleanup := [(3, ["vm1"])] },
+              { cls := 1, owner := some 1, name := "all.root.vms.vm1.nets.localhost.net2", pfx := "1a2", objectRoot := true,
+                sets := [("vm1", "root")], objs := ["vm1"], setup := [(0, ["vm1"])], cleanup := [(4, ["vm1"])] },
+              { cls := 2, owner := some 0, name := "leaf.vm1.net1", pfx := "2", setup := [(1, ["vm1"])] },
+              { cls := 2, owner := some 1, name := "leaf.vm1.net2", pfx := "3", setup := [(2, ["vm1"])] }],
+    root := 0 }
+
+/-- `gRoot2` meets the static hypotheses of the theorems of this section and NOT `noRootsB` -/
+example : I2N.Trav.Term.rankedB gRoot2 = true ∧ edgeSymB gRoot2 = true ∧ I2N.Trav.Term.noFlatB gRoot2 = true ∧
+    graphWF gRoot2 = true ∧ I2N.Trav.GlobalR.classesOKRB gRoot2 = true ∧ I2N.Trav.Global.noRootsB gRoot2 = false ∧
+    I2N.Trav.Term.bound gRoot2 = 222 ∧ I2N.Trav.Global.resultBound gRoot2 = 5 ∧
+    I2N.Trav.Fair2.resultBoundB gRoot2 = 15 := by decide +kernel
+
+/-- worker 0 enters the creation pre-step of its root at time 0, worker 1 finds the class of the roots occupied and sleeps
+0.1 s, then worker 0 ticks (the pre-step has not reported; the tick sleeps 30 s).  The run stops there: the next resume would
+be a second sleep of worker 1, which evaluates a `Float` comparison the kernel cannot decide -/
+def timedRunOfGRoot2 : List I2N.Trav.Fair.TStepN :=
+  [((0, ⟨none, 0⟩, 222), 10), ((1, ⟨none, 0⟩, 222), 10), ((0, ⟨none, 0⟩, 222), 3000)]
+
+/-- non-vacuity on a graph WITH object roots: the run is timed (`q = 10`, `T = 3000`), bumps nothing, its second step is a
+back-off step in front of the occupied class of the roots, worker 0 is inside the creation pre-step of its root (a tick
+later), and it ends alive -/
+example : I2N.Trav.Fair.Timed gRoot2 10 3000 (fun _ => 0) (initState gRoot2 3 []) timedRunOfGRoot2 ∧
+    I2N.Trav.Fair.bumpFreeB gRoot2 (initState gRoot2 3 []) (timedRunOfGRoot2.map (·.1)) = true ∧
+    pcIsBounce ((I2N.Trav.GlobalN.runStepsN gRoot2 (initState gRoot2 3 []) (timedRunOfGRoot2.map (·.1))).wd 1).pc = true ∧
+    pcPreOf ((I2N.Trav.GlobalN.runStepsN gRoot2 (initState gRoot2 3 []) (timedRunOfGRoot2.map (·.1))).wd 0).pc =
+      some (1, 1) := by decide +kernel
+theorem gRoot2_alive : I2N.Trav.Fair.Alive gRoot2
+    (I2N.Trav.GlobalN.runStepsN gRoot2 (initState gRoot2 3 []) (timedRunOfGRoot2.map (·.1))) := by
+  refine ⟨⟨0, by decide, by decide +kernel⟩, fun v hv => ?_⟩
+  have hv2 : v < 2 := hv
+  have h : ∀ u, u < 2 → ((I2N.Trav.GlobalN.runStepsN gRoot2 (initState gRoot2 3 [])
+      (timedRunOfGRoot2.map (·.1))).wd u).pc.isFailed = false := by decide +kernel
+  intro e
+  have := h v hv2
+  rw [e] at this
+  cases this
+example := multi_worker_terminates_timed_roots_partial gRoot2 (by decide) (by decide) (by decide) (by decide) 3 (by decide)
+  (by decide +kernel) [] 10 3000 (by decide) (fun _ => 0) timedRunOfGRoot2 (by decide +kernel) (by decide +kernel)
+  (I2N.Trav.Fair.bumpFree_of_B _ _ _ (by decide +kernel)) (by decide +kernel) gRoot2_alive
+example := multi_worker_terminates_timed_bumps_partial gRoot2 (by decide) (by decide) (by decide) (by decide) 3 (by decide)
+  (by decide +kernel) [] 10 3000 (by decide) (fun _ => 0) timedRunOfGRoot2 (by decide +kernel) (by decide +kernel)
+  (by decide +kernel) gRoot2_alive
+
+/-- the long fair run of `gDuo` for the bounds of this section: `fairRunOfGDuo` and more no-op resumes of worker 0 -/
+def fairRunOfGDuo2 : List I2N.Trav.GlobalN.StepN := fairRunOfGDuo ++ List.replicate 400 (0, ⟨none, 0⟩, 82)
+
+/-- non-vacuity of the window forms (`gDuo` has no object root, but meets `classesOKRB`): the run is fair with window 2, bumps
+nothing and has the `(24·3 + 12·2 + 1)·2 = 194` resp. `(24·9 + 12·2 + 1)·2 = 482` steps asked for -/
+example : I2N.Trav.GlobalR.classesOKRB gDuo = true ∧ I2N.Trav.Fair2.resultBoundB gDuo = 9 ∧ fairRunOfGDuo2.length = 550 ∧
+    I2N.Trav.Fair.FairW gDuo 2 (initState gDuo 2 []) fairRunOfGDuo2 ∧
+    I2N.Trav.Fair.bumpFreeB gDuo (initState gDuo 2 []) fairRunOfGDuo2 = true := by decide +kernel
+example := multi_worker_terminates_fair_roots_partial gDuo (by decide) (by decide) (by decide) (by decide) 2 (by decide)
+  (by decide +kernel) [] 2 (by decide) fairRunOfGDuo2 (by decide +kernel) (by decide +kernel)
+  (I2N.Trav.Fair.bumpFree_of_B _ _ _ (by decide +kernel)) (by decide +kernel) (by decide +kernel)
+example := multi_worker_terminates_fair_bumps_partial gDuo (by decide) (by decide) (by decide) (by decide) 2 (by decide)
+  (by decide +kernel) [] 2 (by decide) fairRunOfGDuo2 (by decide +kernel) (by decide +kernel) (by decide +kernel)
+  (by decide +kernel)
+
+/-- `bumps_bounded` on the states of `gRoot2`: at most `max(1, 2 + 1 - 0) = 3` bumps per copy -/
+example := bumps_bounded gRoot2 (edgeSymB_sound (by decide)) 3 []
+  (I2N.Trav.GlobalN.runStepsN gRoot2 (initState gRoot2 3 []) ((timedRunOfGRoot2.take 1).map (·.1)))
+  (.step _ 0 ⟨none, 0⟩ 222 (.init []) (by decide) (by decide)) 1
+
+/-- `result_wait_sleeps_thirty_seconds` on the third step of `timedRunOfGRoot2`: the tick of worker 0 inside the creation
+pre-step of its root -/
+example : (resume gRoot2 (I2N.Trav.GlobalN.runStepsN gRoot2 (initState gRoot2 3 []) ((timedRunOfGRoot2.take 2).map (·.1))) 0
+    ⟨none, 0⟩ 222).2.getLast? = some (Event.sleep "net1" 3000) := by decide +kernel
 
 end I2N.Props.C02
 
